@@ -820,65 +820,15 @@ def family_stream(ctx, rep):
 PRIMS = ("interval", "par", "tri", "circle", "sphere")
 
 
-def _leaves(node, path=()):
-    """(leaf, motions on the way down, outermost first) for every primitive leaf of a solid expression"""
-    if node.kind in PRIMS:
-        return [(node, path)]
-    if node.kind in ("translate", "rotate"):
-        return _leaves(node.kids[0], path + (node,))
-    out = []
-    for kid in node.kids:
-        out += _leaves(kid, path)
-    return out
-
-
-def _moved(leaf, path):
-    e = leaf
-    for m in reversed(path):
-        e = geomgen.Node(m.kind, m.var, m.pfs, [e])
-    return e
-
-
-def _k_and(a, b):
-    return False if (a is False or b is False) else (None if (a is None or b is None) else True)
-
-
-def _k_or(a, b):
-    return True if (a is True or b is True) else (None if (a is None or b is None) else False)
-
-
-def _k_not(a):
-    return None if a is None else (not a)
-
-
-def _kleene(node, on_b, atom):
-    """the formulas of `containsAux`, over {True, False, None = undecided}; `atom(leaf_id, on_b)` gives the leaf tests"""
-    k = node.kind
-    if k in PRIMS:
-        return atom(id(node), on_b)
-    if k in ("translate", "rotate"):
-        return _kleene(node.kids[0], on_b, atom)
-    a, b = node.kids
-    ia, ib = _kleene(a, False, atom), _kleene(b, False, atom)
-    if not on_b:
-        return {"union": _k_or(ia, ib), "cut": _k_and(ia, _k_not(ib)), "inter": _k_and(ia, ib), "prod": _k_and(ia, ib)}[k]
-    oa, ob = _kleene(a, True, atom), _kleene(b, True, atom)
-    if k == "union":
-        return _k_or(_k_and(oa, _k_not(ib)), _k_or(_k_and(ob, _k_not(ia)), _k_and(ob, oa)))
-    if k == "cut":
-        return _k_or(_k_and(oa, _k_not(ib)), _k_and(_k_and(ob, ia), _k_not(oa)))
-    if k == "inter":
-        return _k_or(_k_and(oa, ib), _k_and(ob, ia))
-    return _k_or(_k_and(oa, ib), _k_and(ia, ob))        # prod
-
-
 def kleene_all(cases, results, undecided, rep):
     """Rows of boundary cases that the margin rule skipped (a point ON the boundary has a closeness slack of the size of the
-    tolerance, far below the margin) are decided leaf by leaf: a leaf's interior test counts if its slack exceeds the margin; a
-    leaf's boundary test counts as TRUE if the exact model accepts with a QUARTER of the tolerances (deep inside the band) and
-    as FALSE if it rejects with FOUR times the tolerances (far outside) — a leaf's boundary test is monotone in the
-    tolerance.  The composite's formula is then evaluated in Kleene logic; a definite value is what every implementation whose
-    float error stays below 3/4 of the band must return."""
+    tolerance, far below the margin) are decided leaf by leaf BY THE MODEL (driver op `kleene` = `TPV.Geom.kleeneBdry`): motions
+    are pushed down to the primitives; a leaf's interior test counts if its slack exceeds the margin; a leaf's boundary test
+    counts as TRUE if the exact model accepts with a QUARTER of the tolerances (deep inside the band) and as FALSE if it
+    rejects with FOUR times the tolerances (far outside); the composite's formula is then evaluated in Kleene logic.
+    Proved (lean/TPV/Props/C05Kleene.lean, `kleeneBdry_sound_per_leaf`): a definite value is the value of the coded formula on
+    ANY leaf answers whose boundary tests behave like the exact test at some tolerance inside that sandwich — i.e. what every
+    implementation whose float error stays below 3/4 of the band must return."""
     jobs, lines = [], []
     for ci, rows in undecided.items():
         cs, res = cases[ci], results[ci]
@@ -888,48 +838,31 @@ def kleene_all(cases, results, undecided, rep):
         if any(kd in ("bdryL", "bdryR", "bdry") for kd in node.kids[0].kinds()):
             continue
         a_, r_, b_ = [Fr(x) for x in (cs.get("tol") or (ATOL, RTOL, BATOL))]
-        leaves = _leaves(node.kids[0])
+        tk = node.kids[0].tokens()
         for ri in rows[:40]:
             pt, env = cs["rows"][ri]
             pe = env_tokens({k: [Fr(v) for v in vs] for k, vs in pt.items()})
             ee = env_tokens({k: [Fr(v) for v in vs] for k, vs in env.items()})
-            a0 = len(lines)
-            for leaf, path in leaves:
-                tk = _moved(leaf, path).tokens()
-                lines.append(f"contains {common.q(a_)} {common.q(r_)} {common.q(b_)} {tk} {pe} {ee}")
-                lines.append(f"bdry {common.q(a_ / 4)} {common.q(r_ / 4)} {common.q(b_ / 4)} {tk} {pe} {ee}")
-                lines.append(f"bdry {common.q(a_ * 4)} {common.q(r_ * 4)} {common.q(b_ * 4)} {tk} {pe} {ee}")
-            jobs.append((ci, ri, leaves, a0))
+            lines.append(f"kleene {common.q(a_)} {common.q(r_)} {common.q(b_)} {common.q(Fr(MARGIN))} {tk} {pe} {ee}")
+            jobs.append((ci, ri))
     if not lines:
         return
     replies = common.run_driver("C05", lines)
-    for ci, ri, leaves, a0 in jobs:
+    for (ci, ri), reply in zip(jobs, replies):
         cs, res = cases[ci], results[ci]
-        node = geomgen.from_json(cs["dom"])
-        # re-parsing gives new leaf objects: match by position
-        leaves_now = _leaves(node.kids[0])
-        table = {}
-        ok = True
-        for j, (leaf, _) in enumerate(leaves_now):
-            c_, lo, hi = (replies[a0 + 3 * j + t].split() for t in range(3))
-            if "none" in (c_[0], lo[0], hi[0]):
-                ok = False
-                break
-            table[(id(leaf), False)] = (c_[0] == "1") if (c_[1] != "none" and Fr(c_[1]) > MARGIN) else None
-            table[(id(leaf), True)] = True if lo[0] == "1" else (False if hi[0] == "0" else None)
-        if not ok:
+        reply = reply.strip()
+        if reply not in ("0", "1"):
+            rep.count("kleene:undecided" if reply == "u" else "kleene:" + reply.split()[0])
             continue
-        val = _kleene(node.kids[0], True, lambda lid, ob: table[(lid, ob)])
-        if val is None:
-            rep.count("kleene:undecided")
-            continue
+        val = reply == "1"
         rep.count("kleene:decided-" + ("on-boundary" if val else "off-boundary"))
         got = res["bools"][ri]
         if bool(got) != val:
+            node = geomgen.from_json(cs["dom"])
             pt, env = cs["rows"][ri]
             rep.fail(f"boundary membership answers {bool(got)}, but evaluated leaf by leaf the point is {'on' if val else 'off'} the boundary of the "
                      f"composite: every leaf test that matters is decided (interior tests with margin, boundary tests deep inside a quarter / "
-                     f"far outside four times the tolerance band) and the coded formula gives {val}",
+                     f"far outside four times the tolerance band) and the coded formula gives {val} (theorem kleeneBdry_sound_per_leaf)",
                      dict(dom=cs["dom"], expression=node.tokens(), point=pt, params=env))
 
 
